@@ -160,7 +160,7 @@ theorem C01_image_in_bounds_interleaved (o : Org) (w h a m x y : Int) (hb : o.b2
   unfold allocBytes
   simp only [hp, Bool.false_eq_true, if_false]
   rw [htot]
-  unfold footprint within
+  unfold footprint footprintF within
   simp only [hp, hb, if_false, imageView, View.addr, show (1 : Int) ≠ 8 by decide, Bool.false_eq_true]
   intro q hq
   simp only [List.mem_singleton] at hq
@@ -203,7 +203,7 @@ theorem C01_image_in_bounds_planar (o : Org) (w h a m x y : Int) (hb : o.b2m = 1
   unfold allocBytes
   simp only [hp, if_true]
   rw [htot]
-  unfold footprint within
+  unfold footprint footprintF within
   simp only [hp, hb, if_true, imageView, View.addr, show (1 : Int) ≠ 8 by decide, if_false]
   intro q hq
   simp only [List.mem_map, List.mem_range] at hq
@@ -248,7 +248,7 @@ theorem C01_image_in_bounds_bitaligned (o : Org) (w h a m x y : Int) (hb : o.b2m
   unfold allocBytes
   simp only [hp, Bool.false_eq_true, if_false]
   rw [htot]
-  unfold footprint within
+  unfold footprint footprintF within
   simp only [hp, hb, if_false, if_true, imageView, View.addr, Bool.false_eq_true]
   intro q hq
   simp only [List.mem_map] at hq
@@ -348,5 +348,354 @@ theorem C01_recreate_reuse (o : Org) (allocated w h a m x y : Int) (hb : o.b2m =
   intro q hq
   obtain ⟨q1, q2⟩ := this q hq
   exact ⟨q1, by omega⟩
+
+/-- **derived views of PLANAR images**: for every list of transformations valid for the image's view and every
+    in-range (x,y) of the derived view, the channel bytes touched in every plane lie inside the allocation -/
+theorem C01_derived_in_bounds_planar (o : Org) (w h a m : Int) (ts : List Xform) (x y : Int) (hb : o.b2m = 1) (hp : o.planar = true)
+    (hP : 0 < o.mstep) (hn : 0 ≤ o.nch) (hw : 0 ≤ w) (hh : 0 ≤ h) (ha : 0 ≤ a) (hm : 0 ≤ m)
+    (hov1 : w * o.mstep + a + m < SZ) (hov : rowUnits o w a * h * o.nch + rowUnits o w a * h + h + 1 + a < SZ)
+    (hv : validAll ts (imageView o w h a m))
+    (hr : (GilVerif.Model.C02.applyMemAll ts (imageView o w h a m)).InRange x y) :
+    within (allocBytes o w h a) (footprint o (rowUnits o w a * h) ((GilVerif.Model.C02.applyMemAll ts (imageView o w h a m)).addr x y)) := by
+  obtain ⟨e, hin⟩ := GilVerif.Props.C02.C02_compose ts (imageView o w h a m) hv hw hh x y hr
+  rw [e]
+  exact C01_image_in_bounds_planar o w h a m _ _ hb hp hP hn hw hh ha hm hov1 hov hin
+
+/-- a planar rgb8 5x4 image, alignment 8, rotated and subsampled: pixel (1,2) of the derived view touches one byte in each of the three planes -/
+example : validAll [.rot90cw, .subsample 2 1] (imageView ⟨1, 1, true, 3, [], 0⟩ 5 4 8 3)
+    ∧ (GilVerif.Model.C02.applyMemAll [.rot90cw, .subsample 2 1] (imageView ⟨1, 1, true, 3, [], 0⟩ 5 4 8 3)).InRange 1 2
+    ∧ allocBytes ⟨1, 1, true, 3, [], 0⟩ 5 4 8 = 103
+    ∧ footprint ⟨1, 1, true, 3, [], 0⟩ (rowUnits ⟨1, 1, true, 3, [], 0⟩ 5 8 * 4)
+        ((GilVerif.Model.C02.applyMemAll [.rot90cw, .subsample 2 1] (imageView ⟨1, 1, true, 3, [], 0⟩ 5 4 8 3)).addr 1 2) = [(15, 1), (47, 1), (79, 1)] := by decide
+
+/-- **derived views of BIT-ALIGNED images**: for every valid list of transformations and every in-range (x,y) of
+    the derived view, the `data_size()` bytes every channel reference copies lie inside the allocation -/
+theorem C01_derived_in_bounds_bitaligned (o : Org) (w h a m : Int) (ts : List Xform) (x y : Int) (hb : o.b2m = 8) (hp : o.planar = false)
+    (hP : 0 < o.mstep) (hw : 0 ≤ w) (hh : 0 ≤ h) (ha : 0 ≤ a) (hm : 0 ≤ m)
+    (hch : ∀ c ∈ o.chans, 0 ≤ c.1 ∧ 0 < c.2 ∧ c.1 + c.2 ≤ o.mstep) (hB : o.mstep < 4294967000)
+    (hov1 : w * o.mstep + a * 8 + m < SZ) (hov : rowUnits o w a * h + h + 8 + a < SZ)
+    (hv : validAll ts (imageView o w h a m))
+    (hr : (GilVerif.Model.C02.applyMemAll ts (imageView o w h a m)).InRange x y) :
+    within (allocBytes o w h a) (footprint o (rowUnits o w a * h) ((GilVerif.Model.C02.applyMemAll ts (imageView o w h a m)).addr x y)) := by
+  obtain ⟨e, hin⟩ := GilVerif.Props.C02.C02_compose ts (imageView o w h a m) hv hw hh x y hr
+  rw [e]
+  exact C01_image_in_bounds_bitaligned o w h a m _ _ hb hp hP hw hh ha hm hch hB hov1 hov hin
+
+/-- a 2-2-2 rgb bit-aligned 3x3 image (7 bytes) flipped and transposed: the last pixel's channels stay inside the 7 bytes -/
+example : allocBytes ⟨8, 6, false, 3, [(0, 2), (2, 2), (4, 2)], 2⟩ 3 3 0 = 7
+    ∧ (GilVerif.Model.C02.applyMemAll [.flipLR, .transpose] (imageView ⟨8, 6, false, 3, [(0, 2), (2, 2), (4, 2)], 2⟩ 3 3 0 5)).InRange 2 0
+    ∧ footprint ⟨8, 6, false, 3, [(0, 2), (2, 2), (4, 2)], 2⟩ 54
+        ((GilVerif.Model.C02.applyMemAll [.flipLR, .transpose] (imageView ⟨8, 6, false, 3, [(0, 2), (2, 2), (4, 2)], 2⟩ 3 3 0 5)).addr 2 0) = [(6, 1), (6, 1), (6, 1)] := by decide
+
+/-! ### every organisation at once -/
+
+theorem C01_image_in_bounds (o : Org) (w h a m x y : Int) (hwf : o.WF) (hno : NoOvf o w h a m)
+    (hr : (imageView o w h a m).InRange x y) :
+    within (allocBytes o w h a) (footprint o (rowUnits o w a * h) ((imageView o w h a m).addr x y)) := by
+  obtain ⟨hP, hn, hk⟩ := hwf
+  obtain ⟨hw, hh, ha, hm, h1, h2, h3⟩ := hno
+  unfold PZ at *
+  rcases hk with hb | ⟨hb, hp, hch, hB⟩
+  · cases hp : o.planar
+    · exact C01_image_in_bounds_interleaved o w h a m x y hb hp hP hw hh ha hm (by rw [hb] at h1; omega) (by rw [hb] at h2; omega) hr
+    · exact C01_image_in_bounds_planar o w h a m x y hb hp hP hn hw hh ha hm (by rw [hb] at h1; omega) (by have := h3 hp; omega) hr
+  · exact C01_image_in_bounds_bitaligned o w h a m x y hb hp hP hw hh ha hm hch hB (by rw [hb] at h1; omega) (by rw [hb] at h2; omega) hr
+
+theorem C01_derived_in_bounds_all (o : Org) (w h a m : Int) (ts : List Xform) (x y : Int) (hwf : o.WF) (hno : NoOvf o w h a m)
+    (hv : validAll ts (imageView o w h a m))
+    (hr : (GilVerif.Model.C02.applyMemAll ts (imageView o w h a m)).InRange x y) :
+    within (allocBytes o w h a) (footprint o (rowUnits o w a * h) ((GilVerif.Model.C02.applyMemAll ts (imageView o w h a m)).addr x y)) := by
+  obtain ⟨e, hin⟩ := GilVerif.Props.C02.C02_compose ts (imageView o w h a m) hv hno.1 hno.2.1 x y hr
+  rw [e]
+  exact C01_image_in_bounds o w h a m _ _ hwf hno hin
+
+theorem C01_kernel_create_view_interleaved (w h ms b2m a nch mem row t0 r0 w0 h0 : Int) (hrow : row_size_in_memunits w ms b2m a = row)
+    (hr : 0 ≤ row) (hr' : row < PZ) :
+    create_view_interleaved w h ms b2m a nch mem t0 r0 w0 h0 = (if a > 0 then align mem a else mem, row, w, h) := by
+  unfold create_view_interleaved PZ at *
+  simp (disch := omega) only [Int.emod_eq_of_lt, hrow]
+  first | rfl | (ext <;> simp only [] <;> omega)
+
+theorem C01_kernel_create_view_planar (w h ms b2m a nch mem row i p0 t0 r0 w0 h0 : Int) (hrow : row_size_in_memunits w ms b2m a = row)
+    (hr : 0 ≤ row) (hr' : row < PZ) (hh : 0 ≤ h) (hi : 0 ≤ i) (hov : row * h * i < PZ) (hov' : row * h < PZ) (hh' : h < PZ) :
+    create_view_planar w h ms b2m a nch mem i p0 t0 r0 w0 h0 = (if a > 0 then align mem a else mem, row * h * i, row, w, h) := by
+  unfold create_view_planar PZ at *
+  have hrh : 0 ≤ row * h := Int.mul_nonneg hr hh
+  have hrhi : 0 ≤ row * h * i := Int.mul_nonneg hrh hi
+  have hc1 : h * row = row * h := by ring
+  have hc2 : i * (row * h) = row * h * i := by ring
+  simp (disch := omega) only [Int.emod_eq_of_lt, hrow, hc1, hc2]
+  first | rfl | (ext <;> simp only [] <;> omega)
+
+theorem C01_kernel_allocate_interleaved (w h ms b2m a nch m0 ar n0 t0 r0 w0 h0 row : Int) (hrow : row_size_in_memunits w ms b2m a = row)
+    (hr : 0 ≤ row) (hr' : row < PZ) :
+    allocate_interleaved w h ms b2m a nch m0 ar n0 t0 r0 w0 h0 =
+      if total_bytes_interleaved w h ms b2m a nch = 0 then (0, m0, t0, r0, w0, h0)
+      else (total_bytes_interleaved w h ms b2m a nch, ar, if a > 0 then align ar a else ar, row, w, h) := by
+  unfold allocate_interleaved PZ at *
+  simp (disch := omega) only [Int.emod_eq_of_lt, hrow]
+  split_ifs <;> first | rfl | (ext <;> simp only [] <;> omega)
+
+theorem C01_kernel_allocate_planar (w h ms b2m a nch m0 ar n0 i p0 t0 r0 w0 h0 row : Int) (hrow : row_size_in_memunits w ms b2m a = row)
+    (hr : 0 ≤ row) (hr' : row < PZ) (hh : 0 ≤ h) (hh' : h < PZ) (hi : 0 ≤ i) (hov : row * h * i < PZ) (hov' : row * h < PZ) :
+    allocate_planar w h ms b2m a nch m0 ar n0 i p0 t0 r0 w0 h0 =
+      if total_bytes_planar w h ms b2m a nch = 0 then (0, m0, t0, p0, r0, w0, h0)
+      else (total_bytes_planar w h ms b2m a nch, ar, if a > 0 then align ar a else ar, row * h * i, row, w, h) := by
+  unfold allocate_planar PZ at *
+  have hrh : 0 ≤ row * h := Int.mul_nonneg hr hh
+  have hrhi : 0 ≤ row * h * i := Int.mul_nonneg hrh hi
+  have hc1 : h * row = row * h := by ring
+  have hc2 : i * (row * h) = row * h * i := by ring
+  simp (disch := omega) only [Int.emod_eq_of_lt, hrow, hc1, hc2]
+  split_ifs <;> first | rfl | (ext <;> simp only [] <;> omega)
+
+macro "recreate_eq" : tactic =>
+  `(tactic| ((try simp only []) <;> split_ifs <;> first | rfl | (exfalso; omega) | (ext <;> simp only [] <;> omega)))
+
+/-- the four `recreate` overloads of both image kinds: nothing to do when dimensions and alignment
+    (and, where one is passed, the allocator) are the current ones; otherwise the alignment is replaced
+    FIRST and the storage is reused iff `_allocated_bytes >= total_allocated_size_in_bytes(dims)` under
+    the NEW alignment -/
+theorem C01_kernel_recreate (w h a vw vh ms b2m a0 nch al e br : Int) :
+    (recreate_dims_interleaved w h a vw vh ms b2m a0 nch al e br
+        = if (w = vw ∧ h = vh) ∧ a0 = a then (a0, 0) else if al ≥ total_bytes_interleaved w h ms b2m a nch then (a, 1) else (a, 2))
+    ∧ (recreate_dims_fill_interleaved w h a vw vh ms b2m a0 nch al e br
+        = if (w = vw ∧ h = vh) ∧ a0 = a then (a0, 0) else if al ≥ total_bytes_interleaved w h ms b2m a nch then (a, 1) else (a, 2))
+    ∧ (recreate_dims_alloc_interleaved w h a vw vh ms b2m a0 nch al e br
+        = if ((w = vw ∧ h = vh) ∧ a0 = a) ∧ e ≠ 0 then (a0, 0) else if al ≥ total_bytes_interleaved w h ms b2m a nch then (a, 1) else (a, 2))
+    ∧ (recreate_dims_fill_alloc_interleaved w h a vw vh ms b2m a0 nch al e br
+        = if ((w = vw ∧ h = vh) ∧ a0 = a) ∧ e ≠ 0 then (a0, 0) else if al ≥ total_bytes_interleaved w h ms b2m a nch then (a, 1) else (a, 2))
+    ∧ (recreate_dims_planar w h a vw vh ms b2m a0 nch al e br
+        = if (w = vw ∧ h = vh) ∧ a0 = a then (a0, 0) else if al ≥ total_bytes_planar w h ms b2m a nch then (a, 1) else (a, 2))
+    ∧ (recreate_dims_fill_planar w h a vw vh ms b2m a0 nch al e br
+        = if (w = vw ∧ h = vh) ∧ a0 = a then (a0, 0) else if al ≥ total_bytes_planar w h ms b2m a nch then (a, 1) else (a, 2))
+    ∧ (recreate_dims_alloc_planar w h a vw vh ms b2m a0 nch al e br
+        = if ((w = vw ∧ h = vh) ∧ a0 = a) ∧ e ≠ 0 then (a0, 0) else if al ≥ total_bytes_planar w h ms b2m a nch then (a, 1) else (a, 2))
+    ∧ (recreate_dims_fill_alloc_planar w h a vw vh ms b2m a0 nch al e br
+        = if ((w = vw ∧ h = vh) ∧ a0 = a) ∧ e ≠ 0 then (a0, 0) else if al ≥ total_bytes_planar w h ms b2m a nch then (a, 1) else (a, 2)) := by
+  unfold recreate_dims_interleaved recreate_dims_fill_interleaved recreate_dims_alloc_interleaved recreate_dims_fill_alloc_interleaved
+    recreate_dims_planar recreate_dims_fill_planar recreate_dims_alloc_planar recreate_dims_fill_alloc_planar
+  refine ⟨?_, ?_, ?_, ?_, ?_, ?_, ?_, ?_⟩ <;> recreate_eq
+
+
+/-! ### placement and recreate -/
+
+private theorem row_bounds (o : Org) (w h a m : Int) (hwf : o.WF) (hno : NoOvf o w h a m) :
+    0 ≤ rowUnits o w a ∧ rowUnits o w a < PZ ∧ 0 ≤ rowUnits o w a * h ∧ rowUnits o w a * h < PZ ∧ h < PZ := by
+  obtain ⟨hP, hn, hk⟩ := hwf
+  obtain ⟨hw, hh, ha, hm, h1, h2, h3⟩ := hno
+  have hb : 0 < o.b2m ∧ o.b2m < 9 := by rcases hk with hb | ⟨hb, _⟩ <;> omega
+  have hwP : 0 ≤ w * o.mstep := Int.mul_nonneg hw (by omega)
+  have hab : 0 ≤ a * o.b2m := Int.mul_nonneg ha (by omega)
+  unfold PZ at *
+  obtain ⟨r1, r2, r3⟩ := C01_row_spec w o.mstep o.b2m a hwP hb.1 ha (by omega) (by omega)
+  have hrow0 : 0 ≤ rowUnits o w a := by unfold rowUnits; omega
+  have hrh : 0 ≤ rowUnits o w a * h := Int.mul_nonneg hrow0 hh
+  refine ⟨hrow0, ?_, hrh, by omega, by omega⟩
+  unfold rowUnits at *
+  by_cases h0 : a > 0
+  · have := (r2 h0).2; omega
+  · have := r3 (by omega); omega
+
+/-- **`create_view`**: the view it lays over the storage at `mem` is `imageView` (first pixel at
+    `align(mem, a)`, rows `get_row_size_in_memunits(w)` apart), and plane `k` of a planar image starts
+    `k * row * h` memory units after plane 0 -/
+theorem C01_create_view (o : Org) (mem w h a k : Int) (hwf : o.WF) (hno : NoOvf o w h a mem) (hk0 : 0 ≤ k) (hk : k ≤ o.nch) :
+    (createViewK o mem w h a k).1.view o = imageView o w h a mem
+    ∧ (createViewK o mem w h a k).2 = if o.planar then k * (rowUnits o w a * h) else 0 := by
+  obtain ⟨b0, b1, b2, b3, b4⟩ := row_bounds o w h a mem hwf hno
+  have hno' := hno
+  obtain ⟨hw, hh, ha, hm, h1, h2, h3⟩ := hno
+  unfold createViewK
+  cases hp : o.planar
+  · simp only [Bool.false_eq_true, if_false]
+    rw [C01_kernel_create_view_interleaved w h o.mstep o.b2m a o.nch mem (rowUnits o w a) 0 0 0 0 rfl b0 b1]
+    simp only [Placed.view, imageView, originOff, and_true]
+    split_ifs <;> simp
+  · simp only [if_true]
+    have hrhk : rowUnits o w a * h * k ≤ rowUnits o w a * h * o.nch := Int.mul_le_mul_of_nonneg_left hk b2
+    have hnn : 0 ≤ rowUnits o w a * h * o.nch := Int.mul_nonneg b2 hwf.2.1
+    have h3' := h3 hp
+    rw [C01_kernel_create_view_planar w h o.mstep o.b2m a o.nch mem (rowUnits o w a) k 0 0 0 0 0 rfl b0 b1 hh hk0
+      (by unfold PZ at *; omega) b3 b4]
+    simp only [Placed.view, imageView, originOff]
+    refine ⟨?_, by ring⟩
+    split_ifs <;> simp
+
+private theorem footprintF_congr (o : Org) (f g : Int → Int) (p : Int) (h : ∀ k : Nat, (k : Int) < o.nch → f k = g k) :
+    footprintF o f p = footprintF o g p := by
+  unfold footprintF
+  split_ifs
+  · rfl
+  · apply List.map_congr_left
+    intro k hk
+    have := List.mem_range.1 hk
+    rw [h k (by omega)]
+  · rfl
+
+private theorem within_mono {n n' : Int} {iv : List (Int × Int)} (h : within n iv) (hle : n ≤ n') : within n' iv := by
+  intro q hq
+  obtain ⟨q1, q2⟩ := h q hq
+  exact ⟨q1, by omega⟩
+
+/-- an image whose view is `imageView … mem` with planes `k * row * h` apart, over storage that is at
+    least as large as that view needs, keeps every derived pixel inside the storage -/
+private theorem inBounds_of_imageView (o : Org) (s : Img) (w h : Int) (hwf : o.WF) (hno : NoOvf o w h s.a s.mem)
+    (hv : s.view = imageView o w h s.a s.mem)
+    (hpl : o.planar = true → ∀ k : Int, 0 ≤ k → k ≤ o.nch → s.plane k = k * (rowUnits o w s.a * h))
+    (hle : allocBytes o w h s.a ≤ s.allocated) : s.InBounds o := by
+  intro ts x y hval hr
+  rw [hv] at hval hr ⊢
+  have := C01_derived_in_bounds_all o w h s.a s.mem ts x y hwf hno hval hr
+  refine within_mono ?_ hle
+  unfold footprint at this
+  cases hp : o.planar
+  · unfold footprintF at this ⊢; simpa [hp] using this
+  · rw [footprintF_congr o s.plane (fun k => k * (rowUnits o w s.a * h)) _ (fun k hk => hpl hp k (by omega) (by omega))]
+    exact this
+
+private theorem inBounds_of_empty (o : Org) (s : Img) (he : s.view.w = 0 ∧ s.view.h = 0) : s.InBounds o := by
+  intro ts x y hval hr
+  obtain ⟨_, hin⟩ := GilVerif.Props.C02.C02_compose ts s.view hval (by omega) (by omega) x y hr
+  obtain ⟨a, b, _, _⟩ := hin
+  omega
+
+
+private theorem allocateK_eq (o : Org) (addr : Int → Int) (w h a k : Int) (hwf : o.WF)
+    (hno : NoOvf o w h a (addr (allocBytes o w h a))) (hk0 : 0 ≤ k) (hk : k ≤ o.nch) :
+    allocateK o addr w h a k =
+      if allocBytes o w h a = 0 then (⟨0, 0, 0, 0, 0, 0⟩, 0)
+      else (⟨allocBytes o w h a, addr (allocBytes o w h a), addr (allocBytes o w h a) + originOff (addr (allocBytes o w h a)) a, rowUnits o w a, w, h⟩,
+            if o.planar then k * (rowUnits o w a * h) else 0) := by
+  obtain ⟨b0, b1, b2, b3, b4⟩ := row_bounds o w h a _ hwf hno
+  obtain ⟨hw, hh, ha, hm, h1, h2, h3⟩ := hno
+  unfold allocateK allocBytes at *
+  cases hp : o.planar
+  · simp only [hp, Bool.false_eq_true, if_false] at *
+    simp only [C01_kernel_allocate_interleaved w h o.mstep o.b2m a o.nch 0 _ 0 0 0 0 0 (rowUnits o w a) rfl b0 b1]
+    by_cases hz : total_bytes_interleaved w h o.mstep o.b2m a o.nch = 0
+    · simp [hz]
+    · simp only [hz, if_false, originOff]
+      split_ifs <;> simp
+  · simp only [hp, if_true] at *
+    have hrhk : rowUnits o w a * h * k ≤ rowUnits o w a * h * o.nch := Int.mul_le_mul_of_nonneg_left hk b2
+    simp only [C01_kernel_allocate_planar w h o.mstep o.b2m a o.nch 0 _ 0 k 0 0 0 0 0 (rowUnits o w a) rfl b0 b1 hh b4 hk0
+      (by have := h3 trivial; unfold PZ at *; omega) b3]
+    by_cases hz : total_bytes_planar w h o.mstep o.b2m a o.nch = 0
+    · simp [hz]
+    · simp only [hz, if_false, originOff]
+      split_ifs <;> simp <;> ring
+
+/-- **`allocate_`** (constructors): requests `total_allocated_size_in_bytes` bytes; for a non-zero
+    request the view is `imageView` over the allocator's block (first pixel at `align(_memory, a)`,
+    planes `row * h` apart); for a zero request nothing is allocated and the view stays 0 x 0.
+    Either way every pixel of every derived view lies inside the block. -/
+theorem C01_allocate (o : Org) (addr : Int → Int) (w h a : Int) (hwf : o.WF)
+    (hno : NoOvf o w h a (addr (allocBytes o w h a))) :
+    (allocate o addr w h a).allocated = allocBytes o w h a ∧ (allocate o addr w h a).a = a
+    ∧ (allocBytes o w h a ≠ 0 → (allocate o addr w h a).mem = addr (allocBytes o w h a)
+          ∧ (allocate o addr w h a).view = imageView o w h a (addr (allocBytes o w h a)))
+    ∧ (allocBytes o w h a = 0 → (allocate o addr w h a).mem = 0 ∧ (allocate o addr w h a).view.w = 0 ∧ (allocate o addr w h a).view.h = 0)
+    ∧ 0 ≤ (allocate o addr w h a).mem
+    ∧ (allocate o addr w h a).InBounds o := by
+  have e0 := allocateK_eq o addr w h a 0 hwf hno (by omega) hwf.2.1
+  by_cases hz : allocBytes o w h a = 0
+  · simp only [hz, if_true] at e0
+    have hv : (allocate o addr w h a).view.w = 0 ∧ (allocate o addr w h a).view.h = 0 := by simp [allocate, e0, Placed.view]
+    refine ⟨by simp [allocate, e0, hz], rfl, fun h => absurd hz h, fun _ => ⟨by simp [allocate, e0], hv⟩, by simp [allocate, e0], inBounds_of_empty o _ hv⟩
+  · simp only [hz, if_false] at e0
+    have hmem : (allocate o addr w h a).mem = addr (allocBytes o w h a) := by simp [allocate, e0]
+    have hview : (allocate o addr w h a).view = imageView o w h a (addr (allocBytes o w h a)) := by
+      simp [allocate, e0, Placed.view, imageView]
+    refine ⟨by simp [allocate, e0], rfl, fun _ => ⟨hmem, hview⟩, fun h => absurd h hz, by rw [hmem]; exact hno.2.2.2.1, ?_⟩
+    apply inBounds_of_imageView o _ w h hwf
+    · rw [hmem]; exact hno
+    · rw [hmem]; exact hview
+    · intro hp k hk0 hk
+      have ek := allocateK_eq o addr w h a k hwf hno hk0 hk
+      simp only [hz, if_false] at ek
+      simp [allocate, ek, hp]
+    · simp [allocate, e0]
+
+
+/-- which branch `recreate` takes (every overload, both image kinds): nothing to do when the
+    dimensions, the alignment and (if one is passed) the allocator are the current ones; otherwise the
+    storage is kept iff `_allocated_bytes ≥ total_allocated_size_in_bytes(dims)` under the NEW alignment -/
+theorem C01_recreate_branch (o : Org) (ov : Overload) (s : Img) (w h a : Int) (e : Bool) :
+    recreateK o ov s w h a e =
+      if (w = s.view.w ∧ h = s.view.h) ∧ s.a = a ∧ (e = true ∨ ov = .dims ∨ ov = .dimsFill) then (s.a, 0)
+      else if s.allocated ≥ allocBytes o w h a then (a, 1) else (a, 2) := by
+  have K := fun e' => C01_kernel_recreate w h a s.view.w s.view.h o.mstep o.b2m s.a o.nch s.allocated e' 0
+  unfold recreateK allocBytes
+  cases hp : o.planar <;> cases ov <;> cases e <;>
+    simp only [Bool.false_eq_true, if_false, if_true, (K 0).1, (K 0).2.1, (K 0).2.2.1, (K 0).2.2.2.1, (K 0).2.2.2.2.1, (K 0).2.2.2.2.2.1,
+      (K 0).2.2.2.2.2.2.1, (K 0).2.2.2.2.2.2.2, (K 1).1, (K 1).2.1, (K 1).2.2.1, (K 1).2.2.2.1, (K 1).2.2.2.2.1, (K 1).2.2.2.2.2.1,
+      (K 1).2.2.2.2.2.2.1, (K 1).2.2.2.2.2.2.2, reduceCtorEq, or_false, or_true, false_or, and_true, and_false,
+      ne_eq, not_true_eq_false, one_ne_zero, not_false_eq_true, and_assoc]
+
+/-- one `recreate` call that keeps the storage: `_memory` and `_allocated_bytes` are unchanged and
+    every pixel of (every view derived from) the re-laid-out view stays inside the storage -/
+theorem C01_recreate_step (o : Org) (hwf : o.WF) (fresh : Call → Img) (s : Img) (c : Call)
+    (hin : s.InBounds o) (hno : NoOvf o c.w c.h c.a s.mem) (hb : (recreateK o c.ov s c.w c.h c.a c.allocEq).2 ≠ 2) :
+    (recreate o fresh s c).mem = s.mem ∧ (recreate o fresh s c).allocated = s.allocated ∧ (recreate o fresh s c).InBounds o := by
+  have hbr := C01_recreate_branch o c.ov s c.w c.h c.a c.allocEq
+  unfold recreate
+  rw [hbr] at hb ⊢
+  split_ifs at hb ⊢ with h1 h2
+  · simp only [if_true]; exact ⟨trivial, trivial, hin⟩
+  · simp only [show ¬ ((1 : Int) = 0) by decide, if_false, if_true]
+    refine ⟨trivial, trivial, ?_⟩
+    apply inBounds_of_imageView o _ c.w c.h hwf hno
+    · exact (C01_create_view o s.mem c.w c.h c.a 0 hwf hno (by omega) hwf.2.1).1
+    · intro hp k hk0 hk
+      have := (C01_create_view o s.mem c.w c.h c.a k hwf hno hk0 hk).2
+      simpa [hp] using this
+    · exact h2
+  · exact absurd rfl hb
+
+/-- **recreate**: after ANY sequence of `recreate` calls (any overloads, dimensions, alignments) that keep the
+    storage, the image still owns the ORIGINAL block (`_memory`, `_allocated_bytes` unchanged) and every
+    in-range pixel of every view derived from its current view touches only bytes of that block -/
+theorem C01_recreate_in_bounds (o : Org) (hwf : o.WF) (fresh : Call → Img) (s0 : Img) (calls : List Call)
+    (hin : s0.InBounds o) (hok : ReuseOK o fresh s0 calls) :
+    (recreateAll o fresh s0 calls).mem = s0.mem ∧ (recreateAll o fresh s0 calls).allocated = s0.allocated
+    ∧ (recreateAll o fresh s0 calls).InBounds o := by
+  induction calls generalizing s0 with
+  | nil => exact ⟨rfl, rfl, hin⟩
+  | cons c cs ih =>
+    obtain ⟨hno, hb, hrest⟩ := hok
+    obtain ⟨s1, s2, s3⟩ := C01_recreate_step o hwf fresh s0 c hin hno hb
+    obtain ⟨r1, r2, r3⟩ := ih (recreate o fresh s0 c) s3 hrest
+    exact ⟨r1.trans s1, r2.trans s2, r3⟩
+
+/-- constructor followed by any storage-keeping `recreate` sequence, spelled out for pixels: every byte
+    touched lies in `[0, n)` of the block of `n = total_allocated_size_in_bytes(w0, h0)` bytes the constructor obtained -/
+theorem C01_allocate_recreate_in_bounds (o : Org) (hwf : o.WF) (addr : Int → Int) (fresh : Call → Img) (w0 h0 a0 : Int) (calls : List Call)
+    (hno : NoOvf o w0 h0 a0 (addr (allocBytes o w0 h0 a0))) (hok : ReuseOK o fresh (allocate o addr w0 h0 a0) calls)
+    (ts : List Xform) (x y : Int) (hv : validAll ts (recreateAll o fresh (allocate o addr w0 h0 a0) calls).view)
+    (hr : (GilVerif.Model.C02.applyMemAll ts (recreateAll o fresh (allocate o addr w0 h0 a0) calls).view).InRange x y) :
+    within (allocBytes o w0 h0 a0)
+      (footprintF o (recreateAll o fresh (allocate o addr w0 h0 a0) calls).plane
+        ((GilVerif.Model.C02.applyMemAll ts (recreateAll o fresh (allocate o addr w0 h0 a0) calls).view).addr x y)) := by
+  obtain ⟨a1, _, _, _, _, a6⟩ := C01_allocate o addr w0 h0 a0 hwf hno
+  obtain ⟨_, r2, r3⟩ := C01_recreate_in_bounds o hwf fresh _ calls a6 hok
+  have := r3 ts x y hv hr
+  rw [r2, a1] at this
+  exact this
+
+
+/-- rgb8 3x2, alignment 16, allocator address 1001 (47 bytes): recreate 2x2, then 5x3 unaligned (45 bytes) reuse the block -/
+example : (⟨1, 3, false, 3, [], 0⟩ : Org).WF ∧ NoOvf ⟨1, 3, false, 3, [], 0⟩ 3 2 16 1001
+    ∧ ReuseOK ⟨1, 3, false, 3, [], 0⟩ (fun _ => Img.empty ⟨1, 3, false, 3, [], 0⟩ 0) (allocate ⟨1, 3, false, 3, [], 0⟩ (fun _ => 1001) 3 2 16)
+        [⟨.dims, 2, 2, 0, true⟩, ⟨.dimsFillAlloc, 5, 3, 0, true⟩, ⟨.dimsAlloc, 5, 3, 0, true⟩]
+    ∧ (recreateAll ⟨1, 3, false, 3, [], 0⟩ (fun _ => Img.empty ⟨1, 3, false, 3, [], 0⟩ 0) (allocate ⟨1, 3, false, 3, [], 0⟩ (fun _ => 1001) 3 2 16)
+        [⟨.dims, 2, 2, 0, true⟩, ⟨.dimsFillAlloc, 5, 3, 0, true⟩, ⟨.dimsAlloc, 5, 3, 0, true⟩]).view = ⟨0, 3, 15, 5, 3⟩
+    ∧ (allocate ⟨1, 3, false, 3, [], 0⟩ (fun _ => 1001) 3 2 16).allocated = 47
+    ∧ (allocate ⟨1, 3, false, 3, [], 0⟩ (fun _ => 1001) 3 2 16).view = ⟨7, 3, 16, 3, 2⟩ := by decide
+/-- planar rgb8 2x2, alignment 4, at address 6 (27 bytes): planes 8 apart; recreate 5x1 unaligned keeps the block, planes then 5 apart -/
+example : (⟨1, 1, true, 3, [], 0⟩ : Org).WF ∧ (allocate ⟨1, 1, true, 3, [], 0⟩ (fun _ => 6) 2 2 4).allocated = 27
+    ∧ (allocate ⟨1, 1, true, 3, [], 0⟩ (fun _ => 6) 2 2 4).view = ⟨2, 1, 4, 2, 2⟩ ∧ (allocate ⟨1, 1, true, 3, [], 0⟩ (fun _ => 6) 2 2 4).plane 2 = 16
+    ∧ ReuseOK ⟨1, 1, true, 3, [], 0⟩ (fun _ => Img.empty ⟨1, 1, true, 3, [], 0⟩ 0) (allocate ⟨1, 1, true, 3, [], 0⟩ (fun _ => 6) 2 2 4) [⟨.dimsFill, 5, 1, 0, true⟩]
+    ∧ (recreateAll ⟨1, 1, true, 3, [], 0⟩ (fun _ => Img.empty ⟨1, 1, true, 3, [], 0⟩ 0) (allocate ⟨1, 1, true, 3, [], 0⟩ (fun _ => 6) 2 2 4) [⟨.dimsFill, 5, 1, 0, true⟩]).plane 2 = 10 := by decide
 
 end GilVerif.Props.C01
